@@ -367,7 +367,7 @@ package twig
 // of them is a key of the map (so MapIndex finds an entry)
 //@   requires[C05] uf_canIface(rv)
 //@   atcall[C05] sort.SliceStable forall k int :: 0 <= k && k < len(keys) ==> ufi_kind(keys[k]) != 0 && uf_canIface(keys[k])
-//@   ensures forall k int :: 0 <= k && k < len(ret) ==> ufi_kind(ret[k]) != 0 && uf_canIface(ret[k]) && uf_hasKey(rv, ret[k]) && ufI_typeOf(ret[k]) == ufI_typeKey(ufI_typeOf(rv))
+//@   ensures forall k int :: 0 <= k && k < len(ret) ==> ufi_kind(ret[k]) != 0 && uf_canIface(ret[k]) && uf_hasKey(rv, ret[k]) && ufI_typeOf(ret[k]) == ufI_typeKey(ufI_typeOf(rv)) && uf_rvComparable(ret[k])
 //@   ensures[C19] len(ret) == ufi_rvlen(rv)
 
 // ---------------------------------------------------------------- truthiness (C09, C19)
@@ -478,6 +478,9 @@ package twig
 //@ define leftFalsy() !fn_toBool_0(ctx, evalRes(old(tr), binN().left, ctx))
 //@ impl (*RenderContext).EvaluateExpression props: C08
 //@   flag rely_tree yes
+// a name bound in the context at hand (a set, a loop variable, a parameter) is answered by the
+// variable lookup, whatever macros of the same name exist
+//@   ensures[C09] typeIs(node, "*VariableNode") && has(ctx.context, unboxAs(node, "*VariableNode").name) ==> lk == emitLookup(old(lk), ctx, unboxAs(node, "*VariableNode").name) && ret0 == lookRes(old(lk), ctx, unboxAs(node, "*VariableNode").name) && ret1 == lookErr(old(lk), ctx, unboxAs(node, "*VariableNode").name)
 //@   ensures[C08] err == nil && typeIs(node, "*BinaryNode") && (binN().operator == "and" || binN().operator == "&&") && leftFalsy() ==> tr == emitEval(old(tr), binN().left, ctx) && typeIs(ret0, "bool") && !unboxAs(ret0, "bool")
 //@   ensures[C08] err == nil && typeIs(node, "*BinaryNode") && (binN().operator == "or" || binN().operator == "||") && !leftFalsy() ==> tr == emitEval(old(tr), binN().left, ctx) && typeIs(ret0, "bool") && unboxAs(ret0, "bool")
 //@   ensures[C08] err == nil && typeIs(node, "*BinaryNode") && !((binN().operator == "and" || binN().operator == "&&") && leftFalsy()) && !((binN().operator == "or" || binN().operator == "||") && !leftFalsy()) ==> tr == emitEval(emitEval(old(tr), binN().left, ctx), binN().right, ctx)
@@ -839,6 +842,10 @@ package twig
 // A macro name is resolved in the innermost context that binds it: the context's own macros first,
 // otherwise exactly what the parent's lookup yields (the event is named, not interpreted), and
 // nothing without a parent - so a call reaches the same macro from every nesting depth.
+//@ func (*RenderContext).definesVariable props: C09
+//@   pure
+//@   loop 1 invariant c == ctx || !has(ctx.context, name)
+//@   ensures[C09] has(ctx.context, name) ==> ret
 //@ func (*RenderContext).GetMacro
 //@   assumed
 //@   modifies nothing
@@ -992,6 +999,18 @@ package twig
 //@   loop 2 invariant 0 <= nth(start, 1) && nth(start, 1) <= t.position && startTokenCount <= len(t.tokenBuffer)
 //@   loop 3 invariant 0 <= nth(start, 2) && nth(start, 2) <= t.position && startTokenCount <= len(t.tokenBuffer)
 //@   loop 4 invariant 0 <= nth(start, 2) && nth(start, 2) <= t.position && startTokenCount <= len(t.tokenBuffer)
+// no byte of a name is dropped: a round of the scanner that consumes one byte outside a string
+// without emitting a token does so for an ASCII byte only (white space, stray punctuation) - a
+// byte of a UTF-8 letter that vanished would turn x.ÜName into x.Name
+//@ func isWhitespace props: C20 C08 C05
+//@   pure
+//@   function
+//@   ensures ret == (c == 32 || c == 9 || c == 10 || c == 13)
+//@ func (*ZeroAllocTokenizer).TokenizeExpression props: C20 C08
+//@   loop 1 snapshot p0 t.position
+//@   loop 1 snapshot n0 len(t.tokenBuffer)
+//@   loop 1 snapshot in0 inString
+//@   loop 1 step[C20,C08] !in0 && !inString && len(t.tokenBuffer) == n0 && t.position == p0 + 1 ==> t.source[p0] < 128
 
 // ---------------------------------------------------------------- literal text (C04)
 // a text token becomes a text node with the same content (see parseOuterTemplate); a text node and
@@ -1138,6 +1157,9 @@ package twig
 //@   atcall[C14,C04] GetTokenizer a0 == source
 //@   atcall[C14,C04] (*Parser).parseOuterTemplate p.tokens == tokenizer.result && p.tokenIndex == 0
 //@   atcall[C14,C04] NewRootNode#1 a0 == nodes
+// ... and of all of it: the outer parser stops early only at a closing tag, which at the top level
+// nothing opened - the rest of the template would vanish from the output without an error
+//@   atcall[C04,C14] ReleaseTokenizer#2 err != nil || p.tokenIndex >= len(tokenizer.result) || tokenizer.result[p.tokenIndex].Type == TOKEN_EOF
 
 // ---------------------------------------------------------------- more filter equations (C19)
 // length: the number of elements that first, last, slice and a for loop observe - characters of a
@@ -1157,6 +1179,12 @@ package twig
 //@ func (*CoreExtension).filterLast props: C19
 //@   ensures[C19] typeIs(value, "[]interface{}") ==> ret1 == nil && ret0 == ite(len(asList(value)) > 0, asList(value)[len(asList(value)) - 1], nil)
 //@   ensures[C19] typeIs(value, "string") && len(asStr(value)) > 0 ==> ret1 == nil && typeIs(ret0, "string") && unboxAs(ret0, "string") == str_of_rune(runes_of(asStr(value))[runecount(asStr(value)) - 1])
+// every Go integer type is a number for abs, round and number_format (the conversion does not fail)
+//@ func toFloat64 props: C19
+//@   ensures[C19] typeIs(v, "int") || typeIs(v, "int8") || typeIs(v, "int16") || typeIs(v, "int32") || typeIs(v, "int64") || typeIs(v, "uint") || typeIs(v, "uint8") || typeIs(v, "uint16") || typeIs(v, "uint32") || typeIs(v, "uint64") || typeIs(v, "float32") || typeIs(v, "float64") ==> ret1 == nil
+// last observes what first, length and a for loop observe: a map has a last entry
+//@ func (*CoreExtension).filterLast props: C19
+//@   ensures[C19] value != nil && !typeIs(value, "string") && !typeIs(value, "[]interface{}") && ufi_kind(ufV_valueOf(value)) == 21 ==> ret1 == nil
 // join: the elements' string forms, in order, handed to strings.Join with the separator; the result
 // is what that call yields. split (no limit): strings.Split of the string form at the separator, as
 // a whole - so that, with the documented behaviour of the two library functions, splitting what join
@@ -1171,7 +1199,7 @@ package twig
 //@   atcall[C19] join a1 == ite(len(args) > 0 && typeIs(old(args[0]), "string"), unboxAs(old(args[0]), "string"), " ")
 //@ func (*CoreExtension).filterSplit props: C19
 //@   atcall[C19] strings.Split a0 == fn_toString_0(value) && a1 == ite(len(args) > 0 && typeIs(args[0], "string"), unboxAs(args[0], "string"), " ")
-//@   ensures[C19] len(args) <= 1 ==> ret1 == nil && typeIs(ret0, "[]string") && unboxAs(ret0, "[]string") == sp
+//@   ensures[C19] len(args) <= 1 && ret1 == nil ==> typeIs(ret0, "[]string") && unboxAs(ret0, "[]string") == sp
 // keys of a typed map (reflection path): a new generic list with at most one element per entry
 //@ func (*CoreExtension).filterKeys props: C19
 //@   loop 2 invariant[C19] 0 - 1 <= rangeindex && rangeindex < len(rangeover()) && len(rangeover()) == ufi_rvlen(rv) && len(keys) <= rangeindex + 1 && (freshArr(keys) || len(keys) == 0)
@@ -1249,6 +1277,9 @@ package twig
 //@   requires forall k int :: 0 <= k && k < len(keys) ==> ufi_kind(keys[k]) != 0 && uf_canIface(keys[k])
 //@ func (*CoreExtension).filterSort$2 props: C05
 //@   requires ufi_kind(result) == 23 && uf_canIface(result) && 0 <= i && i < ufi_rvlen(result) && 0 <= j && j < ufi_rvlen(result)
+// random(min, max): the number of values in the range is computed in machine integers
+//@ func (*CoreExtension).functionRandom props: C05
+//@   arith checked
 //@ func (*CoreExtension).filterSort props: C05
 //@   atcall[C05] sort.SliceStable ufi_kind(result) == 23 && uf_canIface(result)
 //@ func (*CoreExtension).filterSort$1 props: C05
